@@ -17,7 +17,7 @@ MANIFEST = dict(
          "lists, repeated HTLC entries included, and that content is within the bounds), filter theorems (only "
          "an explicit Warn rule downgrades).  The model is run against the real validators (through the Validator "
          "trait) and against Channel::sign_counterparty_commitment_tx_phase2 on every run with boundary-crossed "
-         "inputs, and an independent u128 reference predicate monitors every acceptance.  C05_feerate_estimate_is_source / C05_commitment_weight_is_source: the fee helpers ARE the source's - estimate_feerate_per_kw and expected_commitment_tx_weight (util/transaction_utils.rs) are translated on every run by tools/gen_rustfn.py (Gen/TxUtilGen.v) and proved equal to the model's definitions for every u64 fee and non-zero weight, in both build profiles.  C05_commitment_rules_are_source / C05_expiry_rule_is_source / C05_fee_rule_is_source: the commitment rules ARE the source's - SimpleValidator::validate_commitment_tx (whole body), ::validate_expiry, ::validate_fee with ChannelSetup::is_anchors / ::is_zero_fee_htlc and CommitmentInfo2::value_to_parties are translated statement by statement on every run (Gen/CommitmentPolicyGen.v, records generated from the struct declarations, constants read from their files) and proved equal to the model's validate_commitment / validate_expiry / validate_fee on the abstraction of every source-level value, for every policy filter, both build profiles, refusal tags and panics included; C05_source_accept_implies_bounds carries the bounds over to what the translated function accepts.  C05_counterparty_rules_are_source / C05_holder_rules_are_source: the two entry points validate_counterparty_commitment_tx / validate_holder_commitment_tx (whole bodies: the call of validate_commitment_tx, the revocation window, the retry rules, holder-not-revoked, the closed-channel rule) are translated on every run (Gen/EnforcementRulesGen.v over Gen/EnforcementGen.v) and proved equal, tags and panics included, to the model's validate_counterparty_commitment / validate_holder_commitment with the translated validate_commitment_tx in the place of the call.",
+         "inputs, and an independent u128 reference predicate monitors every acceptance.  C05_feerate_estimate_is_source / C05_commitment_weight_is_source: the fee helpers ARE the source's - estimate_feerate_per_kw and expected_commitment_tx_weight (util/transaction_utils.rs) are translated on every run by tools/gen_rustfn.py (Gen/TxUtilGen.v) and proved equal to the model's definitions for every u64 fee and non-zero weight, in both build profiles.  C05_commitment_rules_are_source / C05_expiry_rule_is_source / C05_fee_rule_is_source: the commitment rules ARE the source's - SimpleValidator::validate_commitment_tx (whole body), ::validate_expiry, ::validate_fee with ChannelSetup::is_anchors / ::is_zero_fee_htlc and CommitmentInfo2::value_to_parties are translated statement by statement on every run (Gen/CommitmentPolicyGen.v, records generated from the struct declarations, constants read from their files) and proved equal to the model's validate_commitment / validate_expiry / validate_fee on the abstraction of every source-level value, for every policy filter, both build profiles, refusal tags and panics included; C05_source_accept_implies_bounds carries the bounds over to what the translated function accepts.  C05_counterparty_rules_are_source / C05_holder_rules_are_source: the two entry points validate_counterparty_commitment_tx / validate_holder_commitment_tx (whole bodies: the call of validate_commitment_tx, the revocation window, the retry rules, holder-not-revoked, the closed-channel rule) are translated on every run (Gen/EnforcementRulesGen.v over Gen/EnforcementGen.v) and proved equal, tags and panics included, to the model's validate_counterparty_commitment / validate_holder_commitment with the translated validate_commitment_tx in the place of the call.  C05_channel_value_rule_is_source / C05_source_channel_value_ok_implies_bound: SimpleValidator::validate_channel_value (policy-funding-max; called by channel.rs before every counterparty-commitment signature with the policy then in force) is translated on every run and equals the model's validate_channel_value; its Ok means channel_value_sat <= max_channel_size_sat.",
     design="§4 C05",
     note=lib.TB + "Additionally trusted: tools/gen_rustfn.py and the meaning Base/Rust.v gives to the Rust constructs it reads; side conditions of the source theorems (boolean commit_fits): channel_value_sat fits u64, feerate_per_kw fits u32, (number of HTLCs)*172+1124 fits usize; LDK's htlc_timeout/success_tx_weight and the policy filter are parameters of the translation.  Side conditions stated in the theorem: max_feerate_per_kw < u32::MAX (u32::MAX means no maximum "
          "after the repair saturates), and in release builds current_height + delay <= u32::MAX (debug builds panic "
@@ -35,7 +35,8 @@ PINNED = ["C05_accept_implies_bounds", "C05_accept_per_tag", "C05_setup", "C05_c
 SOURCE_PINNED = ["C05_feerate_estimate_is_source", "C05_feerate_estimate_zero_weight_panics",
                  "C05_commitment_weight_is_source", "C05_expiry_rule_is_source", "C05_fee_rule_is_source",
                  "C05_commitment_rules_are_source", "C05_source_accept_implies_bounds",
-                 "C05_counterparty_rules_are_source", "C05_holder_rules_are_source"]
+                 "C05_counterparty_rules_are_source", "C05_holder_rules_are_source",
+                 "C05_channel_value_rule_is_source", "C05_source_channel_value_ok_implies_bound"]
 
 IMPORTS = ["Model.CommitmentPolicyCheck"]
 
